@@ -25,6 +25,7 @@ void shift(Pt *p, double dx);
 void clamp(double v, double lo, double hi);
 #include <cstddef>
 void save(void *addr, int type, size_t n);
+void save32(void *addr, int type, size_t n);
 template<typename T> T twice(T v);
 const std::string & label(int which);
 class Counter {
